@@ -162,12 +162,19 @@ def ob_batch_eval(tier="quick"):
         solver.push()                                    # the caller's own frame must survive
         solver.add(("caller", "frame"))
         depth0 = solver.depth
+        frames0 = [list(fr) for fr in solver.frames]
         calls = {"n": 0}
         e = Expr("e")
         state = {"last": None}
+        # the caller's extra constraints (none or one): `feasible` is the set of values under the solver's assertions AND the extras, so every
+        # check must see the extras - as assumptions or asserted - and the solver must hold exactly what it held at entry afterwards
+        extras = (("extra", "x"),) if c.choose([True, True], "n-extra") == 1 else ()
 
         def sat_contract(s, extra, occasion):
             calls["n"] += 1
+            seen = list(extra) + s.blocked()
+            if not all(any(x is y for y in seen) for x in extras):
+                c.fail("_batch_eval/every-check-sees-the-extra-constraints", "a satisfiability check was made without the caller's extra constraints", kind="call_pre")
             # contract of z3_solver_sat: may give up (raise) at every call; otherwise exact w.r.t. the feasible set
             # minus the values blocked so far
             k = c.choose([True, True], f"solver-gives-up#{calls['n']}")
@@ -207,7 +214,7 @@ def ob_batch_eval(tier="quick"):
             res = None
             exc = None
             try:
-                res = ns["__batch_eval_raw__"](b, [e], n, extra_constraints=(), solver=solver, model_callback=hooks.append)
+                res = ns["__batch_eval_raw__"](b, [e], n, extra_constraints=extras, solver=solver, model_callback=hooks.append)
             except (PathEnd, Undecided):
                 raise
             except ClaripyError as ex:
@@ -223,6 +230,11 @@ def ob_batch_eval(tier="quick"):
             c.fail("_batch_eval/solver-state-restored",
                    f"on {'exceptional' if exc else 'normal'} exit the solver is left at push depth {solver.depth} (entered at {depth0}) with blocking clauses {[x for x in solver.blocked() if x[0] == 'ne']}: "
                    "they stay in a solver object that branches share", kind="ensures_exc")
+        same = len(solver.frames) == len(frames0) and all(len(a) == len(b_) and all(x is y for x, y in zip(a, b_)) for a, b_ in zip(solver.frames, frames0))
+        if not same:
+            c.fail("_batch_eval/solver-holds-exactly-what-it-held-at-entry",
+                   f"on {'exceptional' if exc else 'normal'} exit the solver's assertions per frame are {solver.frames}, at entry {frames0}: whatever the query asserted "
+                   "(blocking clauses, the caller's extra constraints) stays in a solver object that branches share", kind="ensures_exc")
         if exc is not None:
             c.check("_batch_eval/exceptional-exit", True)
             return "exc"
